@@ -29,7 +29,7 @@ def handle : List String → Option String
   | ["range", dir, labels] => do
     pure (out (underRange (cps (← unhex dir)) (strs (← unhexList labels))))
   | ["clean", arg, labels] => do
-    pure (out (cleanMatching Generated.Sqlite.likeCaseSensitive (cps (← unhex arg)) (strs (← unhexList labels))))
+    pure (out (cleanMatching Generated.Sqlite.likeCaseSensitiveReadOnly (cps (← unhex arg)) (strs (← unhexList labels))))
   | ["inside", path, trees] => do
     pure (boolStr (insideTree (strs (← unhexList trees)) (cps (← unhex path))))
   | ["contains", path, trees] => do
